@@ -586,6 +586,15 @@ def _dump(chk, ctx, hh) -> None:
         'string (multi-line allowed)': bool(m.exprs(cv, 'clean_string(value, True)')),
         'key (single line)': bool(m.exprs(ck, 'clean_string(key, False)')),
         'bool in lower case': bool(m.exprs(cv, 'repr(value).lower()')),
+        # TOML spells infinity `inf`: a Decimal writes itself `Infinity`, which no TOML reader takes back
+        'an unbounded Decimal amount is written inf': 'Decimal' in order and any(
+            isinstance(n, ast.If) and ast.unparse(n.test) == 'isinstance(value, Decimal)' and any(
+                isinstance(x, ast.IfExp) and isinstance(x.body, ast.Constant) and x.body.value == 'inf' and T.cond(x.test) == T.spec('value == inf', boolean=True)
+                and T.norm(x.orelse) == T.spec('str(value)') for st in n.body for x in ast.walk(st))
+            or (ast.unparse(n.test) == 'isinstance(value, Decimal)' and any(
+                isinstance(y, ast.If) and T.cond(y.test) == T.spec('value == inf', boolean=True) for st in n.body for y in ast.walk(st)))
+            for n in ast.walk(cv) if isinstance(n, ast.If)),
+        'a time of day is written as text of its own arm': 'datetime.time' in order,
     }
     missing = [k for k, v in shapes.items() if not v]
     chk.ob('C16.dump', 'HandHistory.dumps:containers', not missing, ctx.loc(dm, cv),
